@@ -74,11 +74,11 @@ func astFields(j *ast.Journal) map[string]string {
 		out[p+".description"] = t.Description
 		out[p+".payee"] = t.Payee
 		out[p+".note"] = t.Note
-		if len(t.Comments) > 0 {
-			out[p+".comment"] = strings.TrimSpace(t.Comments[0].Text)
-		} else {
-			out[p+".comment"] = "none"
+		var texts []string
+		for _, cm := range t.Comments {
+			texts = append(texts, strings.TrimSpace(cm.Text))
 		}
+		out[p+".comments"] = strings.Join(texts, " | ")
 		lists := [][]ast.Tag{t.Tags}
 		for _, c := range t.Comments {
 			lists = append(lists, c.Tags)
@@ -257,8 +257,6 @@ func checkC03(c *core.Ctx) {
 		}
 		return
 	}
-	bound := 2
-	c.Bound("deviation bound", fmt.Sprint(bound))
 	c.Bound("catalogue", fmt.Sprintf("%d single deviations in %d parameter groups", len(devs), countGroups(devs)))
 	cache := map[string][]c03Finding{}
 	evalCached := func(applied []gmodel.Dev) []c03Finding {
@@ -327,26 +325,32 @@ func checkC03(c *core.Ctx) {
 		}
 		return !c.Expired()
 	}
+	focus := gmodel.Filter(devs, "line-end", "date-sep", "date-pad", "date2", "status", "code", "header-gap", "header-kind", "desc-shape", "note-shape", "pipe-blanks", "header-comment",
+		"commodity", "sign", "number", "cost", "assertion", "amount-sep")
 	if c.Thorough() {
-		// bound 3 on header, amount and line-end parameters; bound 2 elsewhere
+		c.Bound("deviation bound", "3 over the whole catalogue")
+		gmodel.Enumerate(gmodel.Default, devs, 3, visit)
+	} else {
+		// bound 2 everywhere, bound 3 on header, amount and line-end parameters
 		gmodel.Enumerate(gmodel.Default, devs, 2, visit)
-		focus := gmodel.Filter(devs, "line-end", "date-sep", "date-pad", "date2", "status", "code", "header-gap", "header-kind", "desc-shape", "note-shape", "pipe-blanks", "header-comment",
-			"commodity", "sign", "number", "cost", "assertion", "amount-sep")
-		c.Bound("thorough", fmt.Sprintf("bound 3 over %d header/amount/line-end deviations", len(focus)))
+		c.Bound("deviation bound", fmt.Sprintf("2 over the whole catalogue, 3 over the %d header/amount/line-end deviations", len(focus)))
 		gmodel.Enumerate(gmodel.Default, focus, 3, func(j *gmodel.Journal, applied []gmodel.Dev) bool {
 			if len(applied) < 3 {
 				return true
 			}
 			return visit(j, applied)
 		})
-	} else {
-		gmodel.Enumerate(gmodel.Default, devs, bound, visit)
 	}
 	// neighbour pairs: every ordered pair of entry kinds adjacent with 0 and 1 blank lines
 	c03Neighbours(c)
 	// diagnostics clause through the wire seam: no code-less diagnostics on a subset (default + single deviations)
 	if c.MineKey(3) {
 		gmodel.Enumerate(gmodel.Default, devs, 1, func(j *gmodel.Journal, applied []gmodel.Dev) bool {
+			for _, e := range j.Entries {
+				if e.Kind == gmodel.EntryInclude {
+					return true // a missing include legitimately yields a code-less diagnostic
+				}
+			}
 			text := j.Render().Text
 			_, perr := parser.Parse(text)
 			s := wire.New()
